@@ -1,3 +1,4 @@
+import Mrpro.Lemmas.PcaL
 import Mrpro.Lemmas.SrcL
 import Mrpro.Model.OpsND
 import Mrpro.Lemmas.Basic
@@ -138,5 +139,27 @@ theorem src_sampling_flat (nz ny nx : Nat) (kz ky kx : Int) (z y x : Nat)
 theorem src_wavelet_level_shape (n L : Nat) (hL : L % 2 = 0) (hL0 : 0 < L) :
     M.Src.wavelet_level_shape n L = (((n + L - 1) / 2 : Nat) : Int) :=
   M.SrcL.wavelet_level_shape_eq n L hL hL0
+
+/-! ### PCA compression (`PCACompressionOp`): given the decomposition `C = U Λ Uᴴ` of the correlation matrix (the SVD routine is a
+parameter), the compression matrix `M` = first `n` rows of `Uᴴ` … -/
+section PCA
+open Matrix
+variable {𝕜 : Type} [RCLike 𝕜] {n c : ℕ}
+
+/-- … has orthonormal rows, and compress-then-expand is an orthogonal projection -/
+theorem pca_projection (h : n ≤ c) (U : Matrix (Fin c) (Fin c) 𝕜) (hU : Uᴴ * U = 1) :
+    M.pcaMat h U * (M.pcaMat h U)ᴴ = 1
+    ∧ ((M.pcaMat h U)ᴴ * M.pcaMat h U) * ((M.pcaMat h U)ᴴ * M.pcaMat h U) = (M.pcaMat h U)ᴴ * M.pcaMat h U
+    ∧ ((M.pcaMat h U)ᴴ * M.pcaMat h U)ᴴ = (M.pcaMat h U)ᴴ * M.pcaMat h U :=
+  ⟨M.pca_rows_orthonormal h U hU, (M.pca_projection h U hU).1, (M.pca_projection h U hU).2⟩
+
+/-- … onto the *dominant* subspace: the compressed data carry the sum of the `n` largest eigenvalues, and no compression with
+orthonormal rows carries more (Ky Fan) — in data terms, with `X` = coils × samples and `X Xᴴ = C` -/
+theorem pca_dominant (h : n ≤ c) (U : Matrix (Fin c) (Fin c) 𝕜) (hU : Uᴴ * U = 1) (lam : Fin c → ℝ)
+    (hpos : ∀ i, 0 ≤ lam i) (hanti : ∀ i j, i ≤ j → lam j ≤ lam i) {s : ℕ} (X : Matrix (Fin c) (Fin s) 𝕜)
+    (hC : X * Xᴴ = M.pcaCorr U lam) (N : Matrix (Fin n) (Fin c) 𝕜) (hN : N * Nᴴ = 1) :
+    M.frobSq (M.pcaMat h U * X) = ∑ i : Fin n, lam (Fin.castLE h i) ∧ M.frobSq (N * X) ≤ M.frobSq (M.pcaMat h U * X) :=
+  ⟨M.pca_data_energy h U hU lam X hC, M.pca_data_optimal h U hU lam hpos hanti X hC N hN⟩
+end PCA
 
 end C09
